@@ -53,17 +53,6 @@ theorem ls_mult_scale (obs H F : List Rat) (k : Rat) (_hk : 0 < k) (_hH : mean H
 example : (0 : Rat) < 2 ∧ mean [3, 5] ≠ 0 := by decide +kernel
 example : linearScaling .multiplicative [1, 2] [3, 5] ([4, 8].map (fun x => 2 * x)) = [3, 6] := by decide +kernel
 
-/-- mean of an element-wise map `x ↦ x − d` -/
-theorem mean_map_sub (d : Rat) (xs : List Rat) (h : xs ≠ []) : mean (xs.map (fun x => x - d)) = mean xs - d := by
-  have : xs.map (fun x => x - d) = xs.map (fun x => x + -d) := by
-    apply List.map_congr_left; intro x _; ring
-  rw [this, mean_shift (-d) xs h]; ring
-
-theorem mean_map_mul_right (r : Rat) (xs : List Rat) : mean (xs.map (fun x => x * r)) = mean xs * r := by
-  have : xs.map (fun x => x * r) = xs.map (fun x => r * x) := by
-    apply List.map_congr_left; intro x _; ring
-  rw [this, mean_scale]; ring
-
 /-- **LinearScaling, additive — mean change**: the change of the time mean relative to observations equals the
     simulated change between `cm_hist` and `cm_future`. -/
 theorem ls_add_mean_change (obs H F : List Rat) (hF : F ≠ []) :
@@ -193,13 +182,6 @@ example : qmNonparam .multiplicative [1, 2, 4] [3, 5, 6] ([4, 8, 9].map (fun x =
   qm_multiplicative_detrending_scale standardQMNonparam _ _ _ 2 (by norm_num) (by decide +kernel) (by decide +kernel)
 
 /-! ### ScaledDistributionMapping, absolute -/
-
-theorem zipWith_shift_right (g : Rat → Rat → Rat) (c : Rat) (hg : ∀ b t, g b (t + c) = g b t + c) :
-    ∀ (bs ts : List Rat), List.zipWith g bs (ts.map (fun x => x + c)) = (List.zipWith g bs ts).map (fun x => x + c)
-  | [], _ => by simp
-  | _ :: _, [] => by simp
-  | b :: bs, t :: ts => by
-      simp only [List.map_cons, List.zipWith_cons_cons, hg, zipWith_shift_right g c hg bs ts]
 
 /-- **SDM absolute**: everything except the re-added `trend = cm_future − detrend(cm_future)` is computed from the
     detrended future sample, which does not see the shift.  Any location–scale family; no law needed. -/
@@ -385,21 +367,6 @@ example : Model.Isimip.applyOnWindow tasCfg Model.Isimip.ratSigmoid { sigF := tr
   isimip_additive_shift tasCfg ⟨rfl, rfl, rfl, rfl⟩ rfl _ isiShiftLaws_ratSigmoid _ _ 3 _ _ _ _ _ _
     (by decide) (by decide) (by decide) rfl rfl rfl
 
-theorem zipWith_add_sub_cancel : ∀ (x t : List Rat), x.length = t.length →
-    List.zipWith (· - ·) (List.zipWith (· + ·) x t) x = t
-  | [], [], _ => rfl
-  | a :: x, b :: t, h => by
-      have h' : x.length = t.length := by simpa using h
-      simp only [List.zipWith_cons_cons, zipWith_add_sub_cancel x t h']
-      congr 1
-      ring
-  | [], _ :: _, h => by simp at h
-  | _ :: _, [], h => by simp at h
-
-theorem zipWith_sub_self : ∀ (x : List Rat), List.zipWith (· - ·) x x = x.map (fun _ => 0)
-  | [] => rfl
-  | a :: x => by simp only [List.zipWith_cons_cons, List.map_cons, zipWith_sub_self x, sub_self]
-
 /-- **Step 7 restores exactly what step 3 removed from `cm_future`**: for any mapped series `x` of the length of
     `cm_future` (what step 6 returns), `step7 (x, trend) − x = trend`, where `trend` is the fourth component of
     `step3` — the within-period trend subtracted from `cm_future` (zero when `detrending = False`). -/
@@ -430,5 +397,270 @@ theorem isimip_step7_step3_roundtrip (cfg : Model.Isimip.Cfg) (o : Model.Isimip.
   Lemmas.IsimipModel.step7_step3_roundtrip cfg o obs H F yO yH yF h
 
 example : ([4, 8, 9, 13] : List Rat).length = ([2030, 2030, 2031, 2031] : List Int).length := rfl
+
+/-! ## Part B — whole series: seasonal running windows, DeltaChange loop, year windows, ISIMIP month mode
+
+    The index sets of every window loop depend on the dates only (`Lemmas/Lift.lean`), so each per-window theorem lifts
+    to `apply_location`: the result buffers (`none` = never written) of the two runs are related entry by entry by
+    `Option.map (· + c)`. -/
+
+open Model.Skeleton Model.Windows
+
+/-- a window function that ignores the time information -/
+def winOf (g : List Rat → List Rat → List Rat → List Rat) : WinFn Rat := fun o h x _ _ _ => .ok (g o h x)
+
+/-- **Generic seasonal lift**: any per-window function with the per-window shift law (for non-empty future
+    samples).  Guards on the dates: odd step `0 < S ≤ L`, one day of year in `1..366` per future value. -/
+theorem windowed_shift (g : List Rat → List Rat → List Rat → List Rat) (c : Rat)
+    (hg : ∀ o h x, x ≠ [] → g o h (x.map (fun v => v + c)) = (g o h x).map (fun v => v + c))
+    (L S : Int) (dO dH dF : List Int) (obs hist fut : List Rat)
+    (hS : 0 < S) (hSL : S ≤ L) (hlen : dF.length = fut.length) (hr : ∀ d ∈ dF, 1 ≤ d ∧ d ≤ 366) :
+    applyLocationRW (winOf g) L S dO dH dF obs hist (fut.map (fun v => v + c)) =
+      (applyLocationRW (winOf g) L S dO dH dF obs hist fut).map (List.map (Option.map (fun v => v + c))) := by
+  have h := applyLocationRW_equivariant_ne (winOf g) id id (fun v => v + c) (fun v => v + c) L S dO dH dF obs hist fut
+    (by
+      intro o h x io ih ix hx
+      simp only [winOf, List.map_id, Except.map, hg o h x hx])
+    (futureWindow_ne_nil L S dF fut hS hSL hlen hr)
+  simpa only [List.map_id] using h
+
+/-- **DeltaChange lift** (the loop runs over the days of `obs`): every window the loop forms must contain a future
+    value (`hne`; the code takes the mean of that sample) -/
+theorem windowed_shift_DC (g : List Rat → List Rat → List Rat → List Rat) (c : Rat)
+    (hg : ∀ o h x, x ≠ [] → g o h (x.map (fun v => v + c)) = (g o h x).map (fun v => v + c))
+    (L S : Int) (dO dH dF : List Int) (obs hist fut : List Rat)
+    (hne : ∀ ctr ∈ useCenters S dO, take fut (idxWindow L dF ctr) ≠ []) :
+    applyLocationDC (winOf g) L S dO dH dF obs hist (fut.map (fun v => v + c)) =
+      (applyLocationDC (winOf g) L S dO dH dF obs hist fut).map (List.map (Option.map (fun v => v + c))) := by
+  have h := applyLocationDC_equivariant_ne (winOf g) id id (fun v => v + c) (fun v => v + c) L S dO dH dF obs hist fut
+    (by
+      intro o h x io ih ix hx
+      simp only [winOf, List.map_id, Except.map, hg o h x hx])
+    hne
+  simpa only [List.map_id] using h
+
+theorem ls_windowed_shift (c : Rat) (L S : Int) (dO dH dF : List Int) (obs hist fut : List Rat)
+    (hS : 0 < S) (hSL : S ≤ L) (hlen : dF.length = fut.length) (hr : ∀ d ∈ dF, 1 ≤ d ∧ d ≤ 366) :
+    applyLocationRW (winOf (linearScaling .additive)) L S dO dH dF obs hist (fut.map (fun v => v + c)) =
+      (applyLocationRW (winOf (linearScaling .additive)) L S dO dH dF obs hist fut).map
+        (List.map (Option.map (fun v => v + c))) :=
+  windowed_shift _ c (fun o h x _ => ls_add_shift o h x c) L S dO dH dF obs hist fut hS hSL hlen hr
+
+theorem dc_windowed_shift (c : Rat) (L S : Int) (dO dH dF : List Int) (obs hist fut : List Rat)
+    (hne : ∀ ctr ∈ useCenters S dO, take fut (idxWindow L dF ctr) ≠ []) :
+    applyLocationDC (winOf (deltaChange .additive)) L S dO dH dF obs hist (fut.map (fun v => v + c)) =
+      (applyLocationDC (winOf (deltaChange .additive)) L S dO dH dF obs hist fut).map
+        (List.map (Option.map (fun v => v + c))) :=
+  windowed_shift_DC _ c (fun o h x hx => dc_add_shift o h x c hx) L S dO dH dF obs hist fut hne
+
+theorem qm_windowed_shift (qm : List Rat → List Rat → List Rat → List Rat) (c : Rat) (L S : Int)
+    (dO dH dF : List Int) (obs hist fut : List Rat)
+    (hS : 0 < S) (hSL : S ≤ L) (hlen : dF.length = fut.length) (hr : ∀ d ∈ dF, 1 ≤ d ∧ d ≤ 366) :
+    applyLocationRW (winOf (quantileMapping qm .additive)) L S dO dH dF obs hist (fut.map (fun v => v + c)) =
+      (applyLocationRW (winOf (quantileMapping qm .additive)) L S dO dH dF obs hist fut).map
+        (List.map (Option.map (fun v => v + c))) :=
+  windowed_shift _ c (fun o h x hx => qm_additive_detrending_shift qm o h x c hx) L S dO dH dF obs hist fut hS hSL hlen hr
+
+theorem sdm_windowed_shift (Fam : LocScaleFam) (c : Rat) (L S : Int) (dO dH dF : List Int) (obs hist fut : List Rat)
+    (hS : 0 < S) (hSL : S ≤ L) (hlen : dF.length = fut.length) (hr : ∀ d ∈ dF, 1 ≤ d ∧ d ≤ 366) :
+    applyLocationRW (winOf (sdmAbsolute Fam)) L S dO dH dF obs hist (fut.map (fun v => v + c)) =
+      (applyLocationRW (winOf (sdmAbsolute Fam)) L S dO dH dF obs hist fut).map
+        (List.map (Option.map (fun v => v + c))) :=
+  windowed_shift _ c (fun o h x hx => sdm_absolute_shift Fam o h x c hx) L S dO dH dF obs hist fut hS hSL hlen hr
+
+theorem ecdfm_windowed_shift (Fam : LocScaleFam) (hL : LocScaleLaws Fam) (t c : Rat) (L S : Int)
+    (dO dH dF : List Int) (obs hist fut : List Rat)
+    (hS : 0 < S) (hSL : S ≤ L) (hlen : dF.length = fut.length) (hr : ∀ d ∈ dF, 1 ≤ d ∧ d ≤ 366) :
+    applyLocationRW (winOf (ecdfm Fam.toFamily t)) L S dO dH dF obs hist (fut.map (fun v => v + c)) =
+      (applyLocationRW (winOf (ecdfm Fam.toFamily t)) L S dO dH dF obs hist fut).map
+        (List.map (Option.map (fun v => v + c))) :=
+  windowed_shift _ c (fun o h x hx => ecdfm_shift Fam hL t o h x c hx) L S dO dH dF obs hist fut hS hSL hlen hr
+
+theorem qdm_windowed_shift {P} (Fam : Family P) (em : EcdfMethod) (t c : Rat) (L S : Int)
+    (dO dH dF : List Int) (obs hist fut : List Rat)
+    (hS : 0 < S) (hSL : S ≤ L) (hlen : dF.length = fut.length) (hr : ∀ d ∈ dF, 1 ≤ d ∧ d ≤ 366) :
+    applyLocationRW (winOf (qdmWindow Fam .absolute em t none)) L S dO dH dF obs hist (fut.map (fun v => v + c)) =
+      (applyLocationRW (winOf (qdmWindow Fam .absolute em t none)) L S dO dH dF obs hist fut).map
+        (List.map (Option.map (fun v => v + c))) :=
+  windowed_shift _ c (fun o h x _ => qdm_absolute_shift Fam em t o h x c) L S dO dH dF obs hist fut hS hSL hlen hr
+
+/-- CDFt in seasonal windows: additionally every window must contain a historical value (`ecdf` of an empty sample) -/
+theorem cdft_windowed_shift (d : DeltaShift) (hd : d = .additive ∨ d = .no_shift) (em : EcdfMethod) (im : IecdfMethod)
+    (c : Rat) (L S : Int) (dO dH dF : List Int) (obs hist fut : List Rat)
+    (hS : 0 < S) (hSL : S ≤ L) (hlen : dF.length = fut.length) (hr : ∀ d ∈ dF, 1 ≤ d ∧ d ≤ 366)
+    (hH : ∀ ctr ∈ useCenters S dF, take hist (idxWindow L dH ctr) ≠ []) :
+    applyLocationRW (winOf (cdftMapping d em im)) L S dO dH dF obs hist (fut.map (fun v => v + c)) =
+      (applyLocationRW (winOf (cdftMapping d em im)) L S dO dH dF obs hist fut).map
+        (List.map (Option.map (fun v => v + c))) := by
+  have hF := futureWindow_ne_nil L S dF fut hS hSL hlen hr
+  have h := applyLocationRW_equivariant_at (winOf (cdftMapping d em im)) id id (fun v => v + c) (fun v => v + c)
+    L S dO dH dF obs hist fut
+    (by
+      intro ctr hc
+      simp only [winOf, List.map_id, Except.map, cdft_shift d hd em im _ _ _ c (hH ctr hc) (hF ctr hc)])
+  simpa only [List.map_id] using h
+
+/-! ### year windows over the future period (CDFt, QDM: `running_window_mode_over_years_of_cm_future`) -/
+
+/-- **CDFt, year windows**: every year window is corrected against the same `obs`, `cm_hist`; the year masks depend on
+    the years only. -/
+theorem cdft_years_shift (d : DeltaShift) (hd : d = .additive ∨ d = .no_shift) (em : EcdfMethod) (im : IecdfMethod)
+    (L S : Int) (years : List Int) (obs H F : List Rat) (c : Rat) (hH : H ≠ []) :
+    cdftWindowYears d em im L S years obs H (F.map (fun v => v + c)) =
+      (cdftWindowYears d em im L S years obs H F).map (List.map (Option.map (fun v => v + c))) := by
+  unfold cdftWindowYears
+  rw [List.length_map]
+  split_ifs
+  · rfl
+  · apply Lemmas.Lift.applyYears_equivariant
+    intro x iw
+    unfold cdftYearFn
+    simp only [Except.map]
+    by_cases hx : x = []
+    · subst hx
+      cases d <;> simp [cdftMapping, cdftMappingG, cdftShifted, cdftStage1, cdftStage2, cdftStage3, cdftStage4]
+    · rw [cdft_shift d hd em im obs H x c hH hx]
+
+/-- **QDM absolute, year windows** -/
+theorem qdm_years_shift {P} (Fam : Family P) (em : EcdfMethod) (t : Rat) (L S : Int) (years : List Int)
+    (obs H F : List Rat) (c : Rat) :
+    qdmWindowYears Fam .absolute em t none L S years obs H (F.map (fun v => v + c)) =
+      (qdmWindowYears Fam .absolute em t none L S years obs H F).map (List.map (Option.map (fun v => v + c))) := by
+  unfold qdmWindowYears
+  rw [List.length_map]
+  split_ifs
+  · rfl
+  · apply Lemmas.Lift.applyYears_equivariant
+    intro x iw
+    unfold qdmYearFn qdmSteps
+    simp only [Except.map]
+    rw [qdm_absolute_shiftG Fam (ecdf1 em) (fun x y c _ => ecdf1_shift em x y c) t x _ _ c]
+
+example : cdftWindowYears .additive .linear .linear 3 1 [2030, 2030, 2031, 2032] [1, 2, 4] [3, 5, 6, 9]
+      ([4, 8, 9, 13].map (fun v => v + 3)) =
+    (cdftWindowYears .additive .linear .linear 3 1 [2030, 2030, 2031, 2032] [1, 2, 4] [3, 5, 6, 9] [4, 8, 9, 13]).map
+      (List.map (Option.map (fun v => v + 3))) :=
+  cdft_years_shift .additive (Or.inl rfl) _ _ 3 1 _ _ _ _ 3 (by decide)
+
+/-! ### the default CDFt / QDM configuration: seasonal windows, and year windows inside each seasonal window
+
+    The seasonal loop hands the window samples and `time_cm_future[window]` to `apply_on_window`, which loops over year
+    windows of that sample.  Result entries are `Option (Option Rat)`: outer `none` = step in no seasonal window,
+    inner `none` = step in no year window of its seasonal window (both excluded by C07). -/
+
+/-- `apply_on_window` with year windows as a seasonal window function on buffers of `Option Rat` inputs -/
+def cdftSeasonYears (d : DeltaShift) (em : EcdfMethod) (im : IecdfMethod) (Ly Sy : Int) (years : List Int) :
+    WinFn (Option Rat) :=
+  fun o h x _ _ ix => cdftWindowYears d em im Ly Sy (take years ix) (o.filterMap id) (h.filterMap id) (x.filterMap id)
+
+def qdmSeasonYears {P} (Fam : Family P) (em : EcdfMethod) (t : Rat) (Ly Sy : Int) (years : List Int) :
+    WinFn (Option Rat) :=
+  fun o h x _ _ ix =>
+    qdmWindowYears Fam .absolute em t none Ly Sy (take years ix) (o.filterMap id) (h.filterMap id) (x.filterMap id)
+
+theorem cdft_season_years_shift (d : DeltaShift) (hd : d = .additive ∨ d = .no_shift) (em : EcdfMethod) (im : IecdfMethod)
+    (Ly Sy : Int) (years : List Int) (c : Rat) (L S : Int) (dO dH dF : List Int) (obs hist fut : List Rat)
+    (hH : ∀ ctr ∈ useCenters S dF, take hist (idxWindow L dH ctr) ≠ []) :
+    applyLocationRW (cdftSeasonYears d em im Ly Sy years) L S dO dH dF (obs.map some) (hist.map some)
+        ((fut.map (fun v => v + c)).map some) =
+      (applyLocationRW (cdftSeasonYears d em im Ly Sy years) L S dO dH dF (obs.map some) (hist.map some)
+        (fut.map some)).map (List.map (Option.map (Option.map (fun v => v + c)))) := by
+  have hfut : (fut.map (fun v => v + c)).map some = (fut.map some).map (Option.map (fun v => v + c)) := by
+    rw [List.map_map, List.map_map]; rfl
+  rw [hfut]
+  have h := applyLocationRW_equivariant_at (cdftSeasonYears d em im Ly Sy years) id id (Option.map (fun v => v + c))
+    (Option.map (fun v => v + c)) L S dO dH dF (obs.map some) (hist.map some) (fut.map some)
+    (by
+      intro ctr hc
+      simp only [cdftSeasonYears, List.map_id, filterMap_id_map]
+      apply cdft_years_shift d hd
+      rw [take_map_some]
+      exact hH ctr hc)
+  simpa only [List.map_id] using h
+
+theorem qdm_season_years_shift {P} (Fam : Family P) (em : EcdfMethod) (t : Rat)
+    (Ly Sy : Int) (years : List Int) (c : Rat) (L S : Int) (dO dH dF : List Int) (obs hist fut : List Rat) :
+    applyLocationRW (qdmSeasonYears Fam em t Ly Sy years) L S dO dH dF (obs.map some) (hist.map some)
+        ((fut.map (fun v => v + c)).map some) =
+      (applyLocationRW (qdmSeasonYears Fam em t Ly Sy years) L S dO dH dF (obs.map some) (hist.map some)
+        (fut.map some)).map (List.map (Option.map (Option.map (fun v => v + c)))) := by
+  have hfut : (fut.map (fun v => v + c)).map some = (fut.map some).map (Option.map (fun v => v + c)) := by
+    rw [List.map_map, List.map_map]; rfl
+  rw [hfut]
+  have h := Lemmas.Lift.applyLocationRW_equivariant (qdmSeasonYears Fam em t Ly Sy years) id id
+    (Option.map (fun v => v + c)) (Option.map (fun v => v + c)) L S dO dH dF (obs.map some) (hist.map some) (fut.map some)
+    (by
+      intro o h x io ih ix
+      simp only [qdmSeasonYears, List.map_id, filterMap_id_map]
+      exact qdm_years_shift Fam em t Ly Sy _ _ _ _ c)
+  simpa only [List.map_id] using h
+
+/-! ### ISIMIP `apply_location`: running-window mode and month mode (no scaling by the annual cycle) -/
+
+/-- **ISIMIP additive, running-window mode**: guards — every window the loop forms holds an observed and a historical
+    value (`hO`, `hH`), the year lists are parallel to the series. -/
+theorem isimip_windowed_shift (cfg : Model.Isimip.Cfg) (hU : Unbounded cfg) (ht : cfg.trendMethod = .additive)
+    (hcyc : cfg.scaleByAnnualCycle = false)
+    (fam : Model.Isimip.IsiFamily) (hL : IsiShiftLaws fam) (orc : List Nat → Model.Isimip.Oracles)
+    (drw : List Nat → Model.Isimip.Draws) (c : Rat) (L S : Int)
+    (doyO doyH doyF yearsO yearsH yearsF : List Int) (obs H F : List Rat)
+    (hS : 0 < S) (hSL : S ≤ L) (hr : ∀ d ∈ doyF, 1 ≤ d ∧ d ≤ 366)
+    (hlO : doyO.length = obs.length) (hlH : doyH.length = H.length) (hlF : doyF.length = F.length)
+    (hyO : obs.length = yearsO.length) (hyH : H.length = yearsH.length) (hyF : F.length = yearsF.length)
+    (hO : ∀ ctr ∈ useCenters S doyF, take obs (idxWindow L doyO ctr) ≠ [])
+    (hH : ∀ ctr ∈ useCenters S doyF, take H (idxWindow L doyH ctr) ≠ []) :
+    Model.Isimip.applyLocationRW cfg fam orc drw L S doyO doyH doyF yearsO yearsH yearsF obs H (F.map (fun v => v + c)) =
+      (Model.Isimip.applyLocationRW cfg fam orc drw L S doyO doyH doyF yearsO yearsH yearsF obs H F).map
+        (List.map (Option.map (fun v => v + c))) := by
+  have hF := futureWindow_ne_nil L S doyF F hS hSL hlF hr
+  have hvalid : ∀ (d : List Int) (ctr : Int), ∀ j ∈ idxWindow L d ctr, j < d.length :=
+    fun d ctr j hj => Lemmas.Pointwise.idxWindow_valid L d ctr j hj
+  have h := applyLocationRW_equivariant_at (Model.Isimip.winFn cfg fam orc drw yearsO yearsH yearsF) id id
+    (fun v => v + c) (fun v => v + c) L S doyO doyH doyF obs H F
+    (by
+      intro ctr hc
+      simp only [Model.Isimip.winFn, List.map_id]
+      exact applyOnWindow_shift cfg hU ht fam hL _ _ c _ _ _ _ _ _ (hO ctr hc) (hH ctr hc) (hF ctr hc)
+        (take_length_eq obs yearsO _ hyO (fun j hj => hlO ▸ hvalid doyO ctr j hj))
+        (take_length_eq H yearsH _ hyH (fun j hj => hlH ▸ hvalid doyH ctr j hj))
+        (take_length_eq F yearsF _ hyF (fun j hj => hlF ▸ hvalid doyF ctr j hj)))
+  simp only [List.map_id] at h
+  unfold Model.Isimip.applyLocationRW Model.Isimip.step1 Model.Isimip.step8Buffer
+  simp only [hcyc, Bool.false_eq_true, if_false, bind, Except.bind, pure, Except.pure, h]
+  cases applyLocationRW (Model.Isimip.winFn cfg fam orc drw yearsO yearsH yearsF) L S doyO doyH doyF obs H F with
+  | error e => rfl
+  | ok out => rfl
+
+/-- **ISIMIP additive, month mode** (`running_window_mode = False`): guards — every calendar month has an observed, a
+    historical and a future value; month and year lists parallel to the series. -/
+theorem isimip_months_shift (cfg : Model.Isimip.Cfg) (hU : Unbounded cfg) (ht : cfg.trendMethod = .additive)
+    (hcyc : cfg.scaleByAnnualCycle = false)
+    (fam : Model.Isimip.IsiFamily) (hL : IsiShiftLaws fam) (orc : List Nat → Model.Isimip.Oracles)
+    (drw : List Nat → Model.Isimip.Draws) (c : Rat)
+    (mO mH mF doyO doyH doyF yearsO yearsH yearsF : List Int) (obs H F : List Rat)
+    (hlO : mO.length = obs.length) (hlH : mH.length = H.length) (hlF : mF.length = F.length)
+    (hyO : obs.length = yearsO.length) (hyH : H.length = yearsH.length) (hyF : F.length = yearsF.length)
+    (hne : ∀ m ∈ Py.arange1 1 13, take obs (monthIdx mO m) ≠ [] ∧ take H (monthIdx mH m) ≠ [] ∧
+      take F (monthIdx mF m) ≠ []) :
+    Model.Isimip.applyLocationMonths cfg fam orc drw mO mH mF doyO doyH doyF yearsO yearsH yearsF obs H
+        (F.map (fun v => v + c)) =
+      (Model.Isimip.applyLocationMonths cfg fam orc drw mO mH mF doyO doyH doyF yearsO yearsH yearsF obs H F).map
+        (List.map (Option.map (fun v => v + c))) := by
+  have h := applyLocationMonths_equivariant_at (Model.Isimip.winFn cfg fam orc drw yearsO yearsH yearsF) id id
+    (fun v => v + c) (fun v => v + c) mO mH mF obs H F
+    (by
+      intro m hm
+      obtain ⟨h1, h2, h3⟩ := hne m hm
+      simp only [Model.Isimip.winFn, List.map_id]
+      exact applyOnWindow_shift cfg hU ht fam hL _ _ c _ _ _ _ _ _ h1 h2 h3
+        (take_length_eq obs yearsO _ hyO (fun j hj => hlO ▸ monthIdx_valid mO m j hj))
+        (take_length_eq H yearsH _ hyH (fun j hj => hlH ▸ monthIdx_valid mH m j hj))
+        (take_length_eq F yearsF _ hyF (fun j hj => hlF ▸ monthIdx_valid mF m j hj)))
+  simp only [List.map_id] at h
+  unfold Model.Isimip.applyLocationMonths Model.Isimip.step1 Model.Isimip.step8Buffer
+  simp only [hcyc, Bool.false_eq_true, if_false, bind, Except.bind, pure, Except.pure, h]
+  cases applyLocationMonths (Model.Isimip.winFn cfg fam orc drw yearsO yearsH yearsF) mO mH mF obs H F with
+  | error e => rfl
+  | ok out => rfl
 
 end Props.C02
